@@ -338,7 +338,11 @@ def r194(db, ctx, F):
             continue
         f = fs[0]
         e = common.return_expr_single_path_allow(f)
-        if e is not None and m(pat, norm(e)) is not None:
+        alt = None
+        if 'MatrixCoordinates' in suffix:
+            # self[row][col] through the matrix's own Index<usize> / IndexMut<usize> (checked above: the C logical cells of data[row])
+            alt = ('idx', ('call~', ('Index::index', 'IndexMut::index_mut'), (('p', 1), ('fld', ('p', 2), 'row'))), ('fld', ('p', 2), 'col'))
+        if e is not None and (m(pat, norm(e)) is not None or (alt is not None and m(alt, norm(e)) is not None)):
             n += 1
             ctx.ok('R19.4', f, 'accessor returns the addressed logical cell(s)', [X.show(e)])
         else:
